@@ -3,7 +3,9 @@ concurrent.futures.ThreadPoolExecutor).  Real threading.Thread workers, exactly 
 {driver, worker_1..worker_n} runs at any instant (baton passing with Events); every choice of
 who runs next is drawn from one seeded PRNG (or taken from an explicit decision list on replay).
 """
+import _thread
 import faulthandler
+import zlib
 import hashlib
 import random
 import sys
@@ -13,6 +15,17 @@ SIM_CPU_COUNT = 16  # fixed simulated cpu count: default max_workers = min(32, c
 WATCHDOG_S = 90.0
 
 _real_thread_start = threading.Thread.start
+
+
+_HS = {}
+
+
+def hash_str(s):
+    """stable small hash of a file name (independent of PYTHONHASHSEED)"""
+    v = _HS.get(s)
+    if v is None:
+        v = _HS[s] = zlib.crc32(s.encode("utf-8", "replace"))
+    return v
 
 
 class SimStuck(RuntimeError):
@@ -65,10 +78,17 @@ class Sim:
         self.tls = threading.local()
         self.lock = threading.Lock()  # only for counters touched by uncontrolled threads
         self.third_not_started_probe = 0
+        self.line_hits = {}
+        self.seed_int = zlib.crc32(str(self.seed).encode())
+        self.line_threshold = int(self.line_p * 4294967296)
+        self.debug_lines = [] if sched_spec.get("debug_lines") else None
+        self.debug_ids = [] if sched_spec.get("debug_ids") else None
 
     # ---- logging ------------------------------------------------------------------
     def log(self, *ev):
         ev = list(ev)
+        if self.debug_ids is not None:
+            self.debug_ids.append((len(self.events), id(object()), id([])))
         self.events.append(ev)
         self.digest.update(repr(ev).encode("utf-8", "backslashreplace"))
         self.tick()
@@ -192,8 +212,19 @@ class Sim:
         return None
 
     def trace_local(self, frame, event, arg):
-        if event == "line" and self.rng_line.random() < self.line_p:
-            self.yield_point("line")
+        if event == "line":
+            if self.debug_lines is not None:
+                self.debug_lines.append((frame.f_code.co_filename[len(self.repo_src):], frame.f_lineno))
+            # The decision is a pure function of (seed, task, source line, k-th visit of that line by that task), not of
+            # the number of lines executed so far: code under test that iterates an address-ordered set may execute a
+            # few lines more or less from one run to the next (object addresses inside worker threads are not fully
+            # reproducible, see DESIGN 10.2); with keyed decisions such a wobble shifts at most its own pre-emption points.
+            key = (getattr(self.tls, "task_idx", -1), frame.f_code.co_filename, frame.f_lineno)
+            k = self.line_hits.get(key, 0) + 1
+            self.line_hits[key] = k
+            h = zlib.crc32(b"%d|%d|%d|%d|%d" % (self.seed_int, key[0], hash_str(key[1]), key[2], k))
+            if h < self.line_threshold:
+                self.yield_point("line")
         return self.trace_local
 
     # ---- in-flight accounting (called from the _process_file wrapper) ---------------
@@ -302,27 +333,42 @@ class SimFuture:
 
 
 class _Worker:
+    """One pool thread. The baton is a pair of pre-allocated raw locks (no Python-level allocation happens between
+    handing the baton over and blocking, so which of the two threads the OS runs in that window cannot perturb the heap:
+    id()-ordered iteration inside the code under test - and with it the event log - replays exactly)."""
+
     def __init__(self, pool, slot):
         self.pool = pool
         self.slot = slot
-        self.wake = threading.Event()
+        self.wake = _thread.allocate_lock()
+        self.wake.acquire()  # held: the worker blocks on it until the driver releases it
+        # bound methods are created once: creating them inside the hand-over window would be an allocation there
+        self._wake_acquire = self.wake.acquire
+        self._wake_release = self.wake.release
+        self._driver_release = pool._driver_lock.release
         self.task = None
         self.stop = False
         self.thread = threading.Thread(target=self._main, name=f"simworker-{slot}", daemon=True)
         self.thread._sim_controlled = True
         _real_thread_start(self.thread)
+        # wait until the new thread has finished its start-up allocations and is parked
+        if not pool._driver_acquire(True, WATCHDOG_S):
+            raise SimStuck("worker thread did not start")
 
     def _main(self):
         sim = self.pool.sim
         sim.workers_by_ident[threading.get_ident()] = self
         if sim.line_p > 0:
             sys.settrace(sim.trace_global)
+        release_driver = self._driver_release
+        wake_acquire = self._wake_acquire
+        release_driver()  # ready
         while True:
-            self.wake.wait()
-            self.wake.clear()
+            wake_acquire()
             if self.stop:
                 return
             task = self.task
+            sim.tls.task_idx = task.idx
             try:
                 res = task.fn(*task.args, **task.kwargs)
                 task.finished = True
@@ -331,13 +377,12 @@ class _Worker:
                 task.finished = True
                 task.future._set(exc=e)
             self.task = None
-            self.pool._driver_evt.set()
+            release_driver()
 
     def park(self):
         # hand the baton back to the driver and wait to be resumed
-        self.pool._driver_evt.set()
-        self.wake.wait()
-        self.wake.clear()
+        self._driver_release()
+        self._wake_acquire()
 
 
 class SimThreadPool:
@@ -361,7 +406,9 @@ class SimThreadPool:
         self._tasks = []
         self._queue = []
         self._workers = []
-        self._driver_evt = threading.Event()
+        self._driver_lock = _thread.allocate_lock()
+        self._driver_lock.acquire()  # held while the driver runs; a worker releases it to hand the baton back
+        self._driver_acquire = self._driver_lock.acquire
         self._shutdown = False
         self.driving = False
         self._initializer = initializer
@@ -470,9 +517,8 @@ class SimThreadPool:
             sim.log("pool", "start", task.idx, w.slot)
         else:
             w = next(w for w in active if w.task.idx == c)
-        self._driver_evt.clear()
-        w.wake.set()
-        if not self._driver_evt.wait(WATCHDOG_S):
+        w._wake_release()
+        if not self._driver_acquire(True, WATCHDOG_S):
             faulthandler.dump_traceback(file=sys.__stderr__)
             raise SimStuck("worker did not yield or finish within the watchdog interval")
         if w.task is None:
@@ -482,7 +528,7 @@ class SimThreadPool:
         for w in self._workers:
             if w.task is None and not w.stop:
                 w.stop = True
-                w.wake.set()
+                w._wake_release()
                 w.thread.join(5)
                 self.sim.workers_by_ident.pop(w.thread.ident, None)
 
